@@ -295,7 +295,7 @@ func init() {
 			"the library's private measurement properties and the number of registered callbacks are not part of the snapshot",
 		},
 		Phases: []Phase{
-			{Name: "random tables x random render sequences", N: Fixed(1000, 100000), Run: c14Run},
+			{Name: "random tables x random render sequences", N: Fixed(1000, 300000), Run: c14Run},
 		},
 	})
 }
